@@ -136,7 +136,8 @@ func setOption(setOptionCommand string) {
 	}
 	if tokens[1] == currmoveLogIntervalKey {
 		val, err := strconv.Atoi(tokens[3])
-		if err == nil {
+		// the option is declared as a spin with these bounds; 0 would be a division by zero in the search
+		if err == nil && val >= currmoveLogIntervalMin && val <= currmoveLogIntervalMax {
 			currmoveLogInterval = val
 		}
 	}
